@@ -7,5 +7,6 @@ CONSTANTS
   Ks = {1}
   Crashes = FALSE
   Toks = {99}
+  Prio = TRUE
 POSTCONDITION TraceAccepted
 CHECK_DEADLOCK FALSE
